@@ -395,6 +395,15 @@ Proof.
   pose proof (enc_recs_length_ge rs). lia.
 Qed.
 
+Lemma multi_obj_enc_rest rs rest : rs <> [] -> forallb wf_rec rs = true ->
+  multi_obj (enc_recs rs ++ rest) = Ok (MParsed (view_recs rs)).
+Proof.
+  intros Hne Hwf. unfold multi_obj. destruct (enc_recs rs ++ rest) eqn:E.
+  { apply app_eq_nil in E as [E _]. now apply enc_recs_nonempty in E. }
+  rewrite <- E. rewrite parse_records_enc; [reflexivity | assumption | assumption |].
+  rewrite app_length. pose proof (enc_recs_length_ge rs). lia.
+Qed.
+
 (* ---- the whole image ---- *)
 Lemma area_obj_enc dated nf a rest : wf_area dated nf a = true ->
   area_obj dated nf (enc_area dated a ++ rest) = Ok (Parsed (view_area dated a)).
@@ -422,13 +431,13 @@ Proof.
   - reflexivity.
 Qed.
 
-Lemma multi_at_enc rs pre : forallb wf_rec rs = true -> (8 <= length pre)%nat ->
-  multi_at (if nonempty rs then N.of_nat (length pre) else 0) (pre ++ enc_recs rs) =
+Lemma multi_at_enc rs pre post : forallb wf_rec rs = true -> (8 <= length pre)%nat ->
+  multi_at (if nonempty rs then N.of_nat (length pre) else 0) (pre ++ enc_recs rs ++ post) =
   Ok (view_multi rs).
 Proof.
   intros Hwf Hpre. unfold multi_at. destruct rs as [|r rs']; [reflexivity|]. cbn [nonempty].
   replace (N.of_nat (length pre) =? 0) with false by lia.
-  rewrite Nat2N.id, skipn_app_len. apply multi_obj_enc; [discriminate | assumption].
+  rewrite Nat2N.id, skipn_app_len. apply multi_obj_enc_rest; [discriminate | assumption].
 Qed.
 
 Lemma nonempty_enc_recs rs : nonempty (enc_recs rs) = nonempty rs.
@@ -438,8 +447,9 @@ Proof.
   exfalso. revert E. apply enc_recs_nonempty. discriminate.
 Qed.
 
-Lemma parse_enc s : wf_inv s = true ->
-  parse_inventory (enc_inventory s) = Ok (Some (view_inventory s)).
+(* trailing bytes after the image (an EEPROM larger than its content) change nothing *)
+Lemma parse_enc_tail s tail : wf_inv s = true ->
+  parse_inventory (enc_inventory s ++ tail) = Ok (Some (view_inventory s)).
 Proof.
   unfold wf_inv, wf_inv_gen. intros H.
   apply andb_prop in H as [H Hst]. apply andb_prop in H as [H Hmr]. apply andb_prop in H as [H Hpr].
@@ -464,8 +474,10 @@ Proof.
   set (hdr := h ++ [zero_sum_byte h]).
   change (h ++ [zero_sum_byte h] ++ int ++ ch ++ bd ++ pr ++ mr)
     with (hdr ++ int ++ ch ++ bd ++ pr ++ mr).
+  replace ((hdr ++ int ++ ch ++ bd ++ pr ++ mr) ++ tail) with (hdr ++ int ++ ch ++ bd ++ pr ++ mr ++ tail)
+    by (now rewrite <- !app_assoc).
   assert (Lhdr : length hdr = 8%nat) by reflexivity.
-  set (img := hdr ++ int ++ ch ++ bd ++ pr ++ mr).
+  set (img := hdr ++ int ++ ch ++ bd ++ pr ++ mr ++ tail).
   assert (Hhd : parse_header (firstn 8 img) =
                 Ok (mkHeader 1 (off_byte (nonempty int) 8 * 8) (off_byte (is_some (s_chassis s)) n1 * 8)
                              (off_byte (is_some (s_board s)) n2 * 8) (off_byte (is_some (s_product s)) n3 * 8)
@@ -511,3 +523,7 @@ Proof.
   rewrite A1, A2, A3, A4. cbn [bind]. unfold mr. rewrite nonempty_enc_recs.
   reflexivity.
 Qed.
+
+Lemma parse_enc s : wf_inv s = true ->
+  parse_inventory (enc_inventory s) = Ok (Some (view_inventory s)).
+Proof. intros H. rewrite <- (app_nil_r (enc_inventory s)). now apply parse_enc_tail. Qed.
